@@ -19,6 +19,9 @@ type MapStore struct {
 	// Folded records that some weight of this content's history was folded
 	// (so the true values behind it are no longer within alpha of their bins).
 	Folded bool
+	// Inherited: some of that folding happened in another store before the
+	// content was merged in (the folded bin is then not necessarily the edge).
+	Inherited bool
 }
 
 func NewMapStore() *MapStore { return &MapStore{M: map[int]float64{}} }
@@ -91,11 +94,12 @@ func (s *MapStore) MergeFrom(o *MapStore) {
 	}
 	if o.Folded {
 		s.Folded = true
+		s.Inherited = true
 	}
 	s.fold()
 }
 
-func (s *MapStore) Clear() { s.M = map[int]float64{}; s.Folded = false }
+func (s *MapStore) Clear() { s.M = map[int]float64{}; s.Folded = false; s.Inherited = false }
 
 func (s *MapStore) Scale(w float64) {
 	for k := range s.M {
@@ -109,6 +113,7 @@ func (s *MapStore) CopyInto(dst *MapStore) {
 		dst.M[k] = w
 	}
 	dst.Folded = s.Folded
+	dst.Inherited = s.Inherited
 	dst.fold()
 }
 
